@@ -22,6 +22,7 @@ import (
 	"encoding/base64"
 	"fmt"
 	"strconv"
+	"strings"
 	"sync"
 	"time"
 
@@ -638,6 +639,11 @@ func (e *MetaCDC) validCreateRequest(req *request.CreateRequest) error {
 		return servererror.NewClientError("the cache size is less zero")
 	}
 
+	// the task id is a key segment of the meta store
+	if strings.Contains(req.TaskID, "/") || req.TaskID == "." || req.TaskID == ".." {
+		return servererror.NewClientError("the task id is invalid, it can't contain '/' or be a relative path")
+	}
+
 	if len(req.CollectionInfos) == 0 && len(req.DBCollections) == 0 {
 		return servererror.NewClientError("the collection info is empty")
 	}
@@ -655,6 +661,9 @@ func (e *MetaCDC) validCreateRequest(req *request.CreateRequest) error {
 			if len(db) > e.config.MaxNameLength {
 				return servererror.NewClientError(fmt.Sprintf("the db name length exceeds %d characters, %s", e.config.MaxNameLength, db))
 			}
+			if strings.Contains(db, ".") {
+				return servererror.NewClientError(fmt.Sprintf("the db name can't contain '.', %s", db))
+			}
 			err = e.checkCollectionInfos(infos)
 			if err != nil {
 				break
@@ -663,6 +672,19 @@ func (e *MetaCDC) validCreateRequest(req *request.CreateRequest) error {
 	}
 	if err != nil {
 		return err
+	}
+
+	// '.' separates the database and the collection in the full collection name
+	for _, mapping := range req.NameMapping {
+		names := []string{mapping.SourceDB, mapping.TargetDB}
+		for s, t := range mapping.CollectionMapping {
+			names = append(names, s, t)
+		}
+		for _, name := range names {
+			if strings.Contains(name, ".") {
+				return servererror.NewClientError(fmt.Sprintf("the name in the name mapping can't contain '.', %s", name))
+			}
+		}
 	}
 
 	if req.RPCChannelInfo.Name != "" && req.RPCChannelInfo.Name != e.config.SourceConfig.ReplicateChan {
@@ -713,6 +735,9 @@ func (e *MetaCDC) checkCollectionInfos(infos []model.CollectionInfo) error {
 	for _, info := range infos {
 		if info.Name == "" {
 			emptyName = true
+		}
+		if strings.Contains(info.Name, ".") {
+			return servererror.NewClientError(fmt.Sprintf("the collection name can't contain '.', %s", info.Name))
 		}
 		if info.Name == cdcreader.AllCollection && len(infos) > 1 {
 			return servererror.NewClientError(fmt.Sprintf("make sure the only one collection if you want to use the '*' collection param, current param: %v",
